@@ -31,7 +31,7 @@ RULE = (
 ASSUMPTIONS = ["an invalid regular expression inside a pattern counts as a reported definition error, not as a well-formed text"]
 MUST_SEE = [
     "xpath_accepted", "xpath_rejected", "pattern_accepted", "pattern_rejected", "mutations_still_valid", "whitespace_variants", "recompiles_cold",
-    "recompiles_hot", "unknown_class", "non_node_class", "duplicate_capture", "var_before_capture", "var_inside_own_capture", "random_strings", "late_defined_class",
+    "recompiles_hot", "unknown_class", "non_node_class", "duplicate_capture", "var_before_capture", "var_inside_own_capture", "random_strings", "late_defined_class", "compile_after_rejected",
 ]
 CONFIG = {
     "quick": {"shards": 16, "rounds": 120, "watchdog_s": 600},
@@ -335,6 +335,15 @@ def run_shard(ctx):
         check_pattern(f"({P}List @items=[(*) $c *] -> c)", "reject", "var-inside-own-capture")
         check_pattern(f'({P}Leaf @s="(unclosed")', "reject", "invalid-regex")
         check_pattern(f'({P}Leaf @s="*a")', "reject", "invalid-regex")
+        # a rejected definition must leave nothing behind: the next compile may re-use its capture names,
+        # and a variable without capture is still rejected
+        for rejected in (f"({P}Bin @left -> keep @right=(NoSuchClass))", f"({P}Bin @left -> keep @op -> keep)", f"({P}List @items=[(*) -> keep $nope])"):
+            ctx.count("compile_after_rejected")
+            check_pattern(rejected, "reject", "leak-setup")
+            if rng.random() < 0.5:
+                check_pattern(f"({P}Leaf @v -> keep)", "accept", "after-rejected-reuse")
+            else:
+                check_pattern(f"({P}Bin @left=$keep)", "reject", "after-rejected-var")
         ctx.count("random_strings", 2)
         check_pattern("".join(rng.choice(P_ALPHA) for _ in range(rng.randint(0, 16))), None, "random")
         check_pattern("(" + "|".join(rng.choice(class_names) for _ in range(rng.randint(20, 60))) + ")", "accept", "long-alternation")
